@@ -9,29 +9,17 @@ package dnsserver
 
 import (
 	"context"
-	"crypto/sha256"
 	"encoding/binary"
-	"encoding/hex"
 	"fmt"
-	"io"
-	"net"
 	"strings"
 	"testing"
-	"time"
 
 	"github.com/miekg/dns"
 	"pgregory.net/rapid"
+	"verif.local/harness/vsock"
 	"verif.local/harness/vstat"
 	"verif.local/harness/vwire"
 )
-
-// vc06Digest keeps the echoed description short enough for a 512-octet UDP
-// response; any difference in the decoded request changes it.
-func vc06Digest(desc string) string {
-	sum := sha256.Sum256([]byte(desc))
-
-	return hex.EncodeToString(sum[:])
-}
 
 // vc06EchoHandler answers with a TXT record that describes the request exactly
 // as the server decoded it.
@@ -47,190 +35,18 @@ func vc06EchoHandler() Handler {
 	})
 }
 
-// vc06Expect classifies a query by its own bytes: "" = no response expected,
-// otherwise "rcode=<n>" or "echo:<description>".
-func vc06Expect(wire []byte) string {
-	m, err := vwire.RefDecode(wire)
-	switch {
-	case err != nil:
-		return ""
-	case m.Response:
-		return ""
-	case m.Opcode != dns.OpcodeQuery && m.Opcode != dns.OpcodeNotify:
-		return fmt.Sprintf("rcode=%d", dns.RcodeNotImplemented)
-	case len(m.Question) != 1, len(m.Answer) > 1, len(m.Ns) > 1:
-		return fmt.Sprintf("rcode=%d", dns.RcodeFormatError)
-	default:
-		return "echo:" + vc06Digest(vwire.Describe(m, nil))
-	}
-}
-
-func vc06Got(resp *dns.Msg) string {
-	if resp == nil {
-		return ""
-	}
-
-	for _, rr := range resp.Answer {
-		if txt, ok := rr.(*dns.TXT); ok {
-			return "echo:" + strings.Join(txt.Txt, "")
-		}
-	}
-
-	return fmt.Sprintf("rcode=%d", resp.Rcode)
-}
-
-func vc06Sentinel(id uint16) []byte {
-	m := (&dns.Msg{}).SetQuestion("sentinel.verif.test.", dns.TypeA)
-	m.Id = id
-	b, _ := m.Pack()
-
-	return b
-}
-
-// vc06Round sends wires followed by a sentinel on one socket or connection and
-// collects the responses by ID.  If a response listed in expect has not arrived
-// when the sentinel's has, a second sentinel is sent and awaited: two complete
-// round trips after the query was received are taken as confirmation that the
-// server dropped it (settled = true).  A missing sentinel response is a
-// time-out (err != nil), never a verdict.
-func vc06Round(tcp bool, addr net.Addr, wires [][]byte, sentinelID, sentinel2ID uint16, expect map[uint16]bool, split int) (resps map[uint16]*dns.Msg, settled bool, err error) {
-	network := "udp"
-	if tcp {
-		network = "tcp"
-	}
-
-	c, err := net.Dial(network, addr.String())
-	if err != nil {
-		return nil, false, err
-	}
-	defer c.Close()
-
-	send := func(w []byte) error {
-		if tcp {
-			w = append(binary.BigEndian.AppendUint16(nil, uint16(len(w))), w...)
-		}
-
-		_, werr := c.Write(w)
-
-		return werr
-	}
-
-	var out []byte
-	for _, w := range append(append([][]byte{}, wires...), vc06Sentinel(sentinelID)) {
-		if tcp {
-			out = binary.BigEndian.AppendUint16(out, uint16(len(w)))
-			out = append(out, w...)
-		} else if err = send(w); err != nil {
-			return nil, false, err
-		}
-	}
-
-	if tcp {
-		// split > 0: deliver the stream in two segments, cut split octets into
-		// the first frame's body, so that the server sees a partial frame first.
-		if cut := 2 + split; split > 0 && cut < len(out) {
-			if _, err = c.Write(out[:cut]); err != nil {
-				return nil, false, err
-			}
-
-			time.Sleep(3 * time.Millisecond)
-			out = out[cut:]
-		}
-
-		if _, err = c.Write(out); err != nil {
-			return nil, false, err
-		}
-	}
-
-	recv := func() (m *dns.Msg, rerr error) {
-		var b []byte
-		if tcp {
-			var l uint16
-			if rerr = binary.Read(c, binary.BigEndian, &l); rerr != nil {
-				return nil, rerr
-			}
-
-			b = make([]byte, l)
-			if _, rerr = io.ReadFull(c, b); rerr != nil {
-				return nil, rerr
-			}
-		} else {
-			b = make([]byte, 65536)
-			var n int
-			if n, rerr = c.Read(b); rerr != nil {
-				return nil, rerr
-			}
-
-			b = b[:n]
-		}
-
-		m = &dns.Msg{}
-		if uerr := m.Unpack(b); uerr != nil {
-			return nil, fmt.Errorf("server sent an undecodable response: %w", uerr)
-		}
-
-		return m, nil
-	}
-
-	missing := func() bool {
-		for id := range expect {
-			if _, ok := resps[id]; !ok {
-				return true
-			}
-		}
-
-		return false
-	}
-
-	resps = map[uint16]*dns.Msg{}
-	seen1, seen2, sent2 := false, false, false
-	for {
-		switch {
-		case !seen1 || (sent2 && !seen2):
-			_ = c.SetReadDeadline(time.Now().Add(8 * time.Second))
-		default:
-			// Both what is expected and the sentinel have arrived (or the
-			// second sentinel has): a short grace for a response that must
-			// not exist.
-			_ = c.SetReadDeadline(time.Now().Add(20 * time.Millisecond))
-		}
-
-		m, rerr := recv()
-		if rerr != nil {
-			if tcp && !seen1 && (rerr == io.EOF || strings.Contains(rerr.Error(), "reset") || rerr == io.ErrUnexpectedEOF) {
-				// The server closed the connection on a bad query; that is a
-				// settled outcome for everything on this connection.
-				return resps, true, nil
-			}
-
-			if !seen1 || (sent2 && !seen2) {
-				return resps, false, fmt.Errorf("timed out waiting for a sentinel response: %w", rerr)
-			}
-
-			return resps, true, nil
-		}
-
-		switch m.Id {
-		case sentinelID:
-			seen1 = true
-			if missing() && !sent2 {
-				sent2 = true
-				if err = send(vc06Sentinel(sentinel2ID)); err != nil {
-					return resps, false, err
-				}
-			}
-		case sentinel2ID:
-			seen2 = true
-		default:
-			resps[m.Id] = m
-		}
-	}
-}
+var (
+	vc06Digest   = vsock.Digest
+	vc06Expect   = vsock.Expect
+	vc06Got      = vsock.Got
+	vc06Sentinel = vsock.Sentinel
+	vc06Round    = vsock.Round
+)
 
 func TestVerifC06Sockets(t *testing.T) {
 	st := vstat.New("C06", "dnsserver.udp-tcp-sockets",
-		"rapid (transport UDP/TCP, history of 1-3 valid marker queries, next query valid / truncated / inflated counts / pointer beyond the end / trailing bytes / header only) against one long-lived real ServerDNS on loopback whose handler echoes the decoded request; oracle = decode of the query's own bytes + the documented accept rules; non-trivial = query inconsistent; distinct by (transport, query bytes)",
-		"udp", "tcp", "tcp-split-frame", "expect-none", "expect-echo", "kind-pointer", "kind-counts", "kind-truncated", "kind-header-only")
+		"rapid (transport UDP/TCP, history of 1-3 valid marker queries, next query (on TCP in half of the cases padded to 0.5-60 KiB, beyond the initial size of the pooled buffer) valid / truncated / inflated counts / pointer beyond the end / trailing bytes / header only) against one long-lived real ServerDNS on loopback whose handler echoes the decoded request; oracle = decode of the query's own bytes + the documented accept rules; non-trivial = query inconsistent; distinct by (transport, query bytes)",
+		"udp", "tcp", "tcp-split-frame", "expect-none", "expect-echo", "kind-pointer", "kind-counts", "kind-truncated", "kind-header-only", "tcp-valid-query-over-512", "tcp-query-over-512")
 	st.Finish(t)
 
 	// The server binds UDP to a free port and then TCP to the same number, which
@@ -272,6 +88,21 @@ func TestVerifC06Sockets(t *testing.T) {
 		base := vwire.BaseMsg(t)
 		for used[base.Id] {
 			base.Id++
+		}
+
+		// Over TCP the pooled receive buffer starts small and grows: half of
+		// the TCP cases make the query under test larger than a buffer that
+		// has only carried short queries (sizes around the initial 512 octets
+		// and well beyond).
+		big := 0
+		if tcp && rapid.Bool().Draw(t, "big") {
+			big = rapid.SampledFrom([]int{430, 470, 480, 500, 700, 1500, 5000, 20000, 60000}).Draw(t, "bigPad")
+			if base.IsEdns0() == nil {
+				base.SetEdns0(1232, false)
+			}
+
+			opt := base.IsEdns0()
+			opt.Option = append(opt.Option, &dns.EDNS0_PADDING{Padding: make([]byte, big)})
 		}
 
 		next := vwire.DrawNext(t, base)
@@ -319,6 +150,15 @@ func TestVerifC06Sockets(t *testing.T) {
 			classes = append(classes, "tcp")
 			if split > 0 {
 				classes = append(classes, "tcp-split-frame")
+			}
+
+			switch l := len(next.Wire); {
+			case l > 512 && next.Kind == "valid":
+				classes = append(classes, "tcp-valid-query-over-512")
+			case l > 512:
+				classes = append(classes, "tcp-query-over-512")
+			case l >= 500:
+				classes = append(classes, "tcp-query-500-to-512")
 			}
 		} else {
 			classes = append(classes, "udp")
